@@ -1,5 +1,5 @@
 """C17 — embedded file bytes and file metadata are exact (P-tier: hashing kernel)."""
-from . import hashing, overlay, ovlread, packer
+from . import findfiles, hashing, overlay, ovlread, packer
 
 
 def build(reg):
@@ -9,4 +9,5 @@ def build(reg):
     specs = specs + [x for x in overlay.add_writers(reg) + overlay.add_copy_move(reg) if "C17" in x.props or x.qual in ("IH5Group.copy", "IH5Group.move")]
     specs = specs + [x for x in ovlread.add_ovlread(reg) if 'C17' in x.props]  # the one value that cannot be stored is refused
     specs = specs + overlay.add_overlay(reg)  # which container's node a path resolves to (a re-embedded file must not read back an older version's bytes)
-    return {"verify": specs, "lemmas": [], "trusted": hashing.TRUSTED + [overlay.T1_READ, overlay.T1_WRITE, overlay.T_NUMPY] + packer.T_PACK, "assumptions": ["bytes modelled as z3 strings over code points 0..255"]}
+    specs = specs + findfiles.add_findfiles(reg)  # 'after patches and reopen': reopening by name sees EVERY container of the chain (a file embedded in patch 10 is not lost)
+    return {"verify": specs, "lemmas": [], "trusted": hashing.TRUSTED + [overlay.T1_READ, overlay.T1_WRITE, overlay.T_NUMPY] + packer.T_PACK + findfiles.T_FIND, "assumptions": ["bytes modelled as z3 strings over code points 0..255"]}
